@@ -10,6 +10,7 @@ import (
 	"testing"
 	"time"
 
+	"github.com/hashicorp/memberlist"
 	"github.com/hashicorp/serf/serf"
 	"pgregory.net/rapid"
 
@@ -26,12 +27,22 @@ import (
 // of replies through the memberlist delegate before the deadline.  After the
 // query closed the node must be shut down iff own votes are not a strict
 // majority of the valid replies (first reply per sender, malformed ignored).
+//
+// Replies are hand-encoded member records (every address / port form,
+// malformed variants) or genuine ones: what a real responder node's conflict
+// handler answers when it is asked about the name (it knows the name at a
+// drawn address, or does not know it at all).
+//
+// The verdict never depends on the node announcing its decision: the log line
+// only shortens the wait.  A resolver that stays silent is judged by State()
+// once the query has closed and a grace period without scheduler starvation
+// has passed.
 
 type c36Reply struct {
-	From    int    `json:"from"`    // sender index (small pool => repeated senders)
-	Kind    int    `json:"kind"`    // 0 valid member, 1 wrong type byte, 2 garbage behind the right type byte, 3 empty payload, 4 encoded nil member
+	From    int    `json:"from"`    // sender index (small pool => repeated senders); 10 = the node's own name, 11 = empty name
+	Kind    int    `json:"kind"`    // 0 valid member, 1 wrong type byte, 2 garbage behind the right type byte, 3 empty payload, 4 encoded nil member, 5 genuine: answered by a real responder node
 	Addr    int    `json:"addr"`    // 0 own, 1 own in the other byte form (4 vs 16 bytes), 2 other IP, 3 no address
-	Port    int    `json:"port"`    // 0 own, 1 other
+	Port    int    `json:"port"`    // 0 own, 1 own+1, 2 zero, 3 own-1
 	Garbage []byte `json:"garbage"` // kind 2
 	Type    int    `json:"type"`    // kind 1: the wrong type byte
 }
@@ -47,10 +58,10 @@ func genC36(t *rapid.T) c36Case {
 	ownBias := rapid.SampledFrom([][]int{{0, 0, 1, 2}, {0, 1, 2, 2, 3}, {0, 0, 0, 1, 2}}).Draw(t, "bias")
 	for i := 0; i < n; i++ {
 		r := c36Reply{
-			From: rapid.OneOf(rapid.Just(i), rapid.IntRange(0, 9)).Draw(t, "from"),
-			Kind: rapid.SampledFrom([]int{0, 0, 0, 0, 0, 0, 1, 2, 3, 4}).Draw(t, "kind"),
+			From: rapid.OneOf(rapid.Just(i), rapid.IntRange(0, 11)).Draw(t, "from"),
+			Kind: rapid.SampledFrom([]int{0, 0, 0, 0, 0, 5, 5, 1, 2, 3, 4}).Draw(t, "kind"),
 			Addr: rapid.SampledFrom(ownBias).Draw(t, "addr"),
-			Port: rapid.SampledFrom([]int{0, 0, 0, 0, 1}).Draw(t, "port"),
+			Port: rapid.SampledFrom([]int{0, 0, 0, 0, 0, 0, 1, 2, 3}).Draw(t, "port"),
 		}
 		switch r.Kind {
 		case 1:
@@ -90,11 +101,64 @@ func bodyC36(c c36Case, x *vkit.Ctx) {
 		from    string
 		payload []byte
 	}
+	// genuine replies: a real responder node that has the name in its member
+	// table at the drawn address (or, for "no address", one that never heard
+	// of the name) is asked the conflict question and its answer's payload is
+	// what the voter sends
+	var knowing, ignorant *node.Node
+	var rnet *simnet.Network
+	askSeq := 0
+	genuine := func(ip net.IP, port uint16) ([]byte, bool) {
+		if rnet == nil {
+			rnet = simnet.New(2)
+		}
+		r := &ignorant
+		rname := "c36-ignorant"
+		if ip != nil {
+			r, rname = &knowing, "c36-knowing"
+		}
+		if *r == nil {
+			if *r = mkNode(x, rnet, node.Opts{Name: rname, Quiet: true}); *r == nil {
+				return nil, false
+			}
+		}
+		if ip != nil {
+			(*r).EventsD.NotifyJoin(&memberlist.Node{Name: self, Addr: ip, Port: port, PMin: 1, PMax: 5, PCur: 2, DMin: 2, DMax: 5, DCur: 5})
+		}
+		askSeq++
+		ask := foreignQuery(uint64(askSeq), uint32(0x36000000+askSeq), "_serf_conflict", []byte(self))
+		rnet.Packets()
+		(*r).Delegate.NotifyMsg(mustEncode(serf.VerifMessageQueryType, ask))
+		for t1 := time.Now(); time.Since(t1) < 2*time.Second; time.Sleep(100 * time.Microsecond) {
+			for _, p := range node.UserMsgs(rnet.Packets()) {
+				var resp serf.VerifMessageQueryResponse
+				if len(p.Buf) > 1 && p.Buf[0] == serf.VerifMessageQueryResponseType && serf.VerifDecodeMessage(p.Buf[1:], &resp) == nil &&
+					resp.Flags&serf.VerifQueryFlagAck == 0 && resp.ID == ask.ID && p.From == (*r).Tr.Addr() {
+					return resp.Payload, true
+				}
+			}
+		}
+		x.Inconclusive("the responder node did not answer the conflict question")
+		return nil, false
+	}
+	defer func() {
+		for _, r := range []*node.Node{knowing, ignorant} {
+			if r != nil {
+				r.Stop()
+			}
+		}
+	}()
 	var msgs []built
 	counted := map[string]bool{}
-	valid, own, malformed, repeated := 0, 0, 0, 0
+	valid, own, malformed, repeated, genuineN := 0, 0, 0, 0, 0
 	for _, r := range c.Replies {
 		from := fmt.Sprintf("voter-%d", r.From)
+		switch r.From {
+		case 10:
+			from = self
+		case 11:
+			from = ""
+		}
 		var payload []byte
 		m := serf.Member{Name: self, Port: local.Port, Status: serf.StatusAlive}
 		switch r.Addr {
@@ -110,8 +174,13 @@ func bodyC36(c c36Case, x *vkit.Ctx) {
 		case 2:
 			m.Addr = otherIP
 		}
-		if r.Port != 0 {
+		switch r.Port {
+		case 1:
 			m.Port = local.Port + 1
+		case 2:
+			m.Port = 0
+		case 3:
+			m.Port = local.Port - 1
 		}
 		switch r.Kind {
 		case 0:
@@ -122,6 +191,12 @@ func bodyC36(c c36Case, x *vkit.Ctx) {
 			payload = append([]byte{serf.VerifMessageConflictResponseType}, r.Garbage...)
 		case 3:
 			payload = []byte{}
+		case 5:
+			var ok bool
+			if payload, ok = genuine(m.Addr, m.Port); !ok {
+				return
+			}
+			genuineN++
 		default:
 			var nilMember *serf.Member
 			payload = mustEncode(serf.VerifMessageConflictResponseType, nilMember)
@@ -151,6 +226,9 @@ func bodyC36(c c36Case, x *vkit.Ctx) {
 	}
 	if repeated > 0 {
 		x.Label("repeated-sender")
+	}
+	if genuineN > 0 {
+		x.Label("genuine-reply-present")
 	}
 
 	// ---- run the resolution
@@ -183,9 +261,21 @@ func bodyC36(c c36Case, x *vkit.Ctx) {
 		x.Inconclusive("replies could not be injected before the query deadline")
 		return
 	}
-	// ---- wait for the decision (log line = synchronisation only)
-	decided := ""
-	for time.Since(t0) < timeout+5*time.Second {
+	// ---- wait for the decision.  The query closes at its timeout (that ends the
+	// vote); the resolver then either returns or shuts the node down.  A log line
+	// announcing the decision shortens the wait, but is not required.
+	for time.Since(t0) < timeout+5*time.Second && len(n.Serf.VerifOpenQueries()) > 0 {
+		time.Sleep(200 * time.Microsecond)
+	}
+	if len(n.Serf.VerifOpenQueries()) > 0 {
+		x.Inconclusive("the conflict query did not close")
+		return
+	}
+	mon.MaxGap()
+	closedAt := time.Now()
+	const grace = 400 * time.Millisecond
+	decided := "silent"
+	for time.Since(closedAt) < grace {
 		l := n.Log.String()
 		if strings.Contains(l, "majority in name conflict resolution") {
 			decided = "majority"
@@ -195,38 +285,44 @@ func bodyC36(c c36Case, x *vkit.Ctx) {
 			decided = "minority"
 			break
 		}
-		time.Sleep(time.Millisecond)
+		if n.Serf.State() == serf.SerfShutdown {
+			break
+		}
+		time.Sleep(200 * time.Microsecond)
 	}
 	logText := n.Log.String()
 	if strings.Contains(logText, "Failed to deliver query response") {
 		x.Inconclusive("a reply was dropped because the response channel was full")
 		return
 	}
-	if decided == "" {
-		x.Inconclusive("resolution did not announce a decision")
-		return
-	}
-	if decided == "minority" {
+	switch decided {
+	case "minority":
 		for t1 := time.Now(); time.Since(t1) < 3*time.Second && n.Serf.State() != serf.SerfShutdown; {
 			time.Sleep(200 * time.Microsecond)
 		}
+	case "majority":
+		time.Sleep(2 * time.Millisecond) // a shutdown that followed the announcement would be under way by now
 	}
+	x.Label("decision:" + decided)
 	isShutdown := n.Serf.State() == serf.SerfShutdown
-	// the only verdict that rests on a wait is "announced minority but not (yet) shut down"
-	if g := mon.MaxGap(); decided == "minority" && !isShutdown && g > 50*time.Millisecond {
-		x.Inconclusive("scheduler starvation while waiting for the announced shutdown")
+	// verdicts that rest on a wait: "not (yet) shut down" after an announced
+	// minority or after a silent resolver's grace period
+	if g := mon.MaxGap(); decided != "majority" && !isShutdown && g > 50*time.Millisecond {
+		x.Inconclusive("scheduler starvation while waiting for the shutdown")
 		return
 	}
 	tail := logText
 	if i := strings.LastIndex(tail, "name conflict resolution"); i >= 0 {
 		tail = tail[max(0, i-40):]
+	} else if len(tail) > 300 {
+		tail = tail[len(tail)-300:]
 	}
 	switch {
 	case wantShutdown && !isShutdown:
-		x.Violationf("survived-without-majority", "%d valid replies (first per sender), %d name the node's own address:port, %d malformed ignored: no strict majority, yet state is %v; log: %s", valid, own, malformed, n.Serf.State(), strings.TrimSpace(tail))
+		x.Violationf("survived-without-majority", "%d valid replies (first per sender), %d name the node's own address:port, %d malformed ignored: no strict majority, yet state is %v (decision announced: %s); log: %s", valid, own, malformed, n.Serf.State(), decided, strings.TrimSpace(tail))
 		return
 	case !wantShutdown && isShutdown:
-		x.Violationf("shutdown-despite-majority", "%d valid replies (first per sender), %d name the node's own address:port, %d malformed ignored: strict majority, yet the node shut down; log: %s", valid, own, malformed, strings.TrimSpace(tail))
+		x.Violationf("shutdown-despite-majority", "%d valid replies (first per sender), %d name the node's own address:port, %d malformed ignored: strict majority, yet the node shut down (decision announced: %s); log: %s", valid, own, malformed, decided, strings.TrimSpace(tail))
 		return
 	}
 	d := 2*own - valid
